@@ -25,8 +25,87 @@ use tarpc::{
 };
 
 pub type SMock = Mock<Response<String>, ClientMessage<String>>;
-type Base = BaseChannel<String, String, SMock>;
+type Bare = BaseChannel<String, String, SMock>;
 type HFut = Pin<Box<dyn Future<Output = ()>>>;
+type Tracked = tarpc::server::limits::channels_per_key::TrackedChannel<Bare, u8>;
+
+/// The channel under test: a `BaseChannel`, bare or as handed out by the listener-level
+/// `max_channels_per_key` combinator (a `TrackedChannel`, which must behave exactly like the channel
+/// it wraps). The enum only forwards; both variants are boxed so that no projection is needed.
+pub enum Base {
+    B(Pin<Box<Bare>>),
+    T(Pin<Box<Tracked>>),
+}
+impl Base {
+    fn bare(&self) -> &Bare {
+        match self {
+            Base::B(c) => c,
+            Base::T(c) => c.get_ref(),
+        }
+    }
+    fn verif_in_flight(&self) -> tarpc::verif::Lens {
+        self.bare().verif_in_flight()
+    }
+}
+impl Stream for Base {
+    type Item = Result<tarpc::server::TrackedRequest<String>, ChannelError<TErr>>;
+    fn poll_next(self: Pin<&mut Self>, cx: &mut Context<'_>) -> Poll<Option<Self::Item>> {
+        match self.get_mut() {
+            Base::B(c) => c.as_mut().poll_next(cx),
+            Base::T(c) => c.as_mut().poll_next(cx),
+        }
+    }
+}
+impl Sink<Response<String>> for Base {
+    type Error = ChannelError<TErr>;
+    fn poll_ready(self: Pin<&mut Self>, cx: &mut Context<'_>) -> Poll<Result<(), Self::Error>> {
+        match self.get_mut() {
+            Base::B(c) => c.as_mut().poll_ready(cx),
+            Base::T(c) => c.as_mut().poll_ready(cx),
+        }
+    }
+    fn start_send(self: Pin<&mut Self>, item: Response<String>) -> Result<(), Self::Error> {
+        match self.get_mut() {
+            Base::B(c) => c.as_mut().start_send(item),
+            Base::T(c) => c.as_mut().start_send(item),
+        }
+    }
+    fn poll_flush(self: Pin<&mut Self>, cx: &mut Context<'_>) -> Poll<Result<(), Self::Error>> {
+        match self.get_mut() {
+            Base::B(c) => c.as_mut().poll_flush(cx),
+            Base::T(c) => c.as_mut().poll_flush(cx),
+        }
+    }
+    fn poll_close(self: Pin<&mut Self>, cx: &mut Context<'_>) -> Poll<Result<(), Self::Error>> {
+        match self.get_mut() {
+            Base::B(c) => c.as_mut().poll_close(cx),
+            Base::T(c) => c.as_mut().poll_close(cx),
+        }
+    }
+}
+impl Channel for Base {
+    type Req = String;
+    type Resp = String;
+    type Transport = SMock;
+    fn config(&self) -> &Config {
+        match self {
+            Base::B(c) => c.config(),
+            Base::T(c) => c.config(),
+        }
+    }
+    fn in_flight_requests(&self) -> usize {
+        match self {
+            Base::B(c) => c.in_flight_requests(),
+            Base::T(c) => c.in_flight_requests(),
+        }
+    }
+    fn transport(&self) -> &SMock {
+        match self {
+            Base::B(c) => c.transport(),
+            Base::T(c) => c.transport(),
+        }
+    }
+}
 
 #[derive(Clone, Copy, Debug, PartialEq)]
 pub enum Mode {
@@ -162,7 +241,7 @@ impl Cfg {
         c.model = if r.chance(1, 2) { Model::Coupled } else { Model::Independent };
         c.cap = *r.pick(&[1, 1, 2, 3, 8]);
         c.limit = *r.pick(&[None, None, Some(0), Some(1), Some(1), Some(2), Some(3), Some(8)]);
-        c.resp_buf = *r.pick(&[1, 1, 2, 8]);
+        c.resp_buf = *r.pick(&[1, 1, 2, 8, 100]);
         c.nmsgs = 1 + r.below(12);
         if r.chance(1, 15) {
             c.nmsgs = 20 + r.below(40);
@@ -516,16 +595,36 @@ async fn run_inner(cfg: &Cfg, out: &mut Outcome) {
             }
         })
     };
-    let base = BaseChannel::new(Config { pending_response_buffer: cfg.resp_buf }, mock);
+    // every shipped way of building the same channel (chosen by the seed): `new` / `with_defaults`,
+    // bare or handed out by `Incoming::max_channels_per_key`, the limiter from `Channel::
+    // max_concurrent_requests` or from `Incoming::max_concurrent_requests_per_channel`
+    use tarpc::server::incoming::Incoming;
+    let default_buf = Config::default().pending_response_buffer;
+    let bare = if cfg.resp_buf == default_buf && cfg.seed & 4 == 0 { BaseChannel::with_defaults(mock) } else { BaseChannel::new(Config { pending_response_buffer: cfg.resp_buf }, mock) };
+    let via_listener = cfg.seed & 8 == 0 && cfg.script.is_empty();
+    let limiter_from_incoming = cfg.seed & 16 == 0 && cfg.script.is_empty();
+    let base = if via_listener {
+        let mut l = Box::pin(futures::stream::iter([bare]).max_channels_per_key(1, |_: &Bare| 0u8));
+        Base::T(Box::pin(l.next().now_or_never().flatten().expect("harness: the listener yields its only channel")))
+    } else {
+        Base::B(Box::pin(bare))
+    };
+    out.cells.push(format!("server.built.{}{}", if via_listener { "tracked-channel" } else { "bare" }, if cfg.limit.is_some() { if limiter_from_incoming { "+incoming-limiter" } else { "+channel-limiter" } } else { "" }));
+    let limited = |base: Base, l: usize| -> MaxRequests<Base> {
+        if limiter_from_incoming {
+            let mut s = Box::pin(futures::stream::iter([base]).max_concurrent_requests_per_channel(l));
+            s.next().now_or_never().flatten().expect("harness: the limiter stream yields its only channel")
+        } else {
+            base.max_concurrent_requests(l)
+        }
+    };
     let mut srv: Option<Srv> = Some(match (cfg.mode, cfg.limit) {
         (Mode::Requests, None) => Srv::Plain(Box::pin(base.requests())),
-        (Mode::Requests, Some(l)) => Srv::Limited(Box::pin(base.max_concurrent_requests(l).requests())),
+        (Mode::Requests, Some(l)) => Srv::Limited(Box::pin(limited(base, l).requests())),
         (Mode::Execute, None) => Srv::Exec(Box::pin(base.execute(serve_fn.clone()).map(|f| Box::pin(f) as HFut))),
-        (Mode::Execute, Some(l)) => Srv::Exec(Box::pin(
-            base.max_concurrent_requests(l).execute(serve_fn.clone()).map(|f| Box::pin(f) as HFut),
-        )),
+        (Mode::Execute, Some(l)) => Srv::Exec(Box::pin(limited(base, l).execute(serve_fn.clone()).map(|f| Box::pin(f) as HFut))),
         (Mode::Raw, None) => Srv::RawPlain(Box::pin(base)),
-        (Mode::Raw, Some(l)) => Srv::RawLimited(Box::pin(base.max_concurrent_requests(l))),
+        (Mode::Raw, Some(l)) => Srv::RawLimited(Box::pin(limited(base, l))),
     });
     let outbox: Rc<RefCell<std::collections::VecDeque<Response<String>>>> = Rc::new(RefCell::new(Default::default()));
     let sflag = flag();
